@@ -34,12 +34,12 @@ type Member struct {
 	KeyPos int
 }
 
-func VObject(ms ...Member) *Val  { return &Val{K: VObj, Members: ms} }
-func VArray(es ...*Val) *Val     { return &Val{K: VArr, Elems: es} }
-func VString(s string) *Val      { return &Val{K: VStr, S: s} }
-func VNumber(text string) *Val   { return &Val{K: VNum, Num: text} }
-func VBoolean(b bool) *Val       { return &Val{K: VBool, B: b} }
-func VNullV() *Val               { return &Val{K: VNull} }
+func VObject(ms ...Member) *Val   { return &Val{K: VObj, Members: ms} }
+func VArray(es ...*Val) *Val      { return &Val{K: VArr, Elems: es} }
+func VString(s string) *Val       { return &Val{K: VStr, S: s} }
+func VNumber(text string) *Val    { return &Val{K: VNum, Num: text} }
+func VBoolean(b bool) *Val        { return &Val{K: VBool, B: b} }
+func VNullV() *Val                { return &Val{K: VNull} }
 func M(key string, v *Val) Member { return Member{Key: key, V: v} }
 
 func (v *Val) Clone() *Val {
